@@ -1116,13 +1116,17 @@ export class ProcGenWrapper {
       } else {
         elem.updateAttribute(name, v)
       }
-      if (modelLvaluePath) {
-        elem.setModelBindingListener(name, (value) => {
-          const host = elem.ownerShadowRoot!.getHostNode()
-          const nodeDataProxy = Component.getDataProxy(host)
-          nodeDataProxy.replaceDataOnPath(modelLvaluePath, value)
-          nodeDataProxy.applyDataUpdates(false)
-        })
+      if (modelLvaluePath !== undefined) {
+        if (modelLvaluePath === null) {
+          elem.setModelBindingListener(name, () => {})
+        } else {
+          elem.setModelBindingListener(name, (value) => {
+            const host = elem.ownerShadowRoot!.getHostNode()
+            const nodeDataProxy = Component.getDataProxy(host)
+            nodeDataProxy.replaceDataOnPath(modelLvaluePath, value)
+            nodeDataProxy.applyDataUpdates(false)
+          })
+        }
       }
     }
     this.tryCallPropertyChangeListener(elem, name, v)
